@@ -421,7 +421,8 @@ func c14JoinLong(w *mon.W, idx int) {
 func c14JoinHuge(w *mon.W, _ int) {
 	for _, c := range [][2]int{{64, 1<<25 + 10}, {32, 1<<26 + 11}, {16, 1<<27 + 3}} { // (never run in the 386 flavour)
 		width, n := int32(c[0]), c[1]
-		vals := make([]uint64, n)
+		vals, release := hugeZeroWords(n)
+		defer release()
 		marks := map[int]uint64{0: 0x1234567890abcdef, 5: ^uint64(0), n/2 - 1: 0x0f0f0f0f0f0f0f0f, n / 2: 0xdeadbeefcafef00d, n/2 + 1: 1, n - 3: 0x8000000000000001, n - 1: 0xffffffffffffffff}
 		lim := int((int64(1) << 31) / int64(width)) // the first element whose bit position is no int32
 		marks[lim-1], marks[lim], marks[lim+1] = 0xa5a5a5a5a5a5a5a5, 0x5a5a5a5a5a5a5a5a, 0x1111111111111111
